@@ -6,6 +6,7 @@ package main
 
 import (
 	"fmt"
+	"sort"
 	"strings"
 	"time"
 	"unicode"
@@ -175,6 +176,15 @@ func (g *rig) expect(part, enc string, bytes string, w want, cost int) (vaxis.Ke
 
 var nonASCII = []rune{'é', 'ф', 'Ф', 'ß', 'ñ', 'λ', 'Λ', 'ø', 'ü', 'Ü', 'ç', 'א', 'ب', 'あ', '世', '한', '→', '€', '¿', 'ı', 'İ', 'ǆ', 'ά', '☃'}
 
+func sortedKeys[K byte | int, V any](m map[K]V) []K {
+	ks := make([]K, 0, len(m))
+	for k := range m {
+		ks = append(ks, k)
+	}
+	sort.Slice(ks, func(i, j int) bool { return ks[i] < ks[j] })
+	return ks
+}
+
 func masks() []int {
 	m := make([]int, 256)
 	for i := range m {
@@ -220,14 +230,18 @@ func decodeSweep(g *rig, idx, n int) {
 		g.expect("esc-prefix", "ESC + byte", "\x1b"+string(b), w, int(b))
 	}
 	// SS3
-	for f, code := range map[byte]rune{'A': vaxis.KeyUp, 'B': vaxis.KeyDown, 'C': vaxis.KeyRight, 'D': vaxis.KeyLeft, 'F': vaxis.KeyEnd, 'H': vaxis.KeyHome, 'P': vaxis.KeyF01, 'Q': vaxis.KeyF02, 'R': vaxis.KeyF03, 'S': vaxis.KeyF04} {
+	ss3 := map[byte]rune{'A': vaxis.KeyUp, 'B': vaxis.KeyDown, 'C': vaxis.KeyRight, 'D': vaxis.KeyLeft, 'F': vaxis.KeyEnd, 'H': vaxis.KeyHome, 'P': vaxis.KeyF01, 'Q': vaxis.KeyF02, 'R': vaxis.KeyF03, 'S': vaxis.KeyF04}
+	// every map is walked in key order: the shards are separate processes and must agree on the numbering of the cases
+	for _, f := range sortedKeys(ss3) {
+		code := ss3[f]
 		if !mine() {
 			continue
 		}
 		g.expect("ss3", "SS3", "\x1bO"+string(f), want{code: code}, int(f))
 	}
 	// CSI 1;m X and CSI X
-	for f, code := range csiLetter {
+	for _, f := range sortedKeys(csiLetter) {
+		code := csiLetter[f]
 		if mine() && f != 'R' {
 			g.expect("csi-letter", "CSI final", "\x1b["+string(f), want{code: code}, int(f))
 		}
@@ -247,7 +261,8 @@ func decodeSweep(g *rig, idx, n int) {
 		g.expect("csi-letter", "CSI Z", "\x1b[Z", want{code: vaxis.KeyTab, mods: vaxis.ModShift}, 0)
 	}
 	// CSI n;m ~
-	for num, code := range csiTilde {
+	for _, num := range sortedKeys(csiTilde) {
+		code := csiTilde[num]
 		if mine() {
 			g.expect("csi-tilde", "CSI n ~", fmt.Sprintf("\x1b[%d~", num), want{code: code}, num)
 		}
@@ -281,7 +296,7 @@ func decodeSweep(g *rig, idx, n int) {
 	for _, c := range nonASCII {
 		codes = append(codes, int(c))
 	}
-	for c := range kittyFn {
+	for _, c := range sortedKeys(kittyFn) {
 		if c > 127 {
 			codes = append(codes, c)
 		}
@@ -397,7 +412,7 @@ func sampleEvents() []vaxis.Key {
 		up := unicode.ToUpper(c)
 		for _, m := range masks() {
 			mm := vaxis.ModifierMask(m)
-			evs = append(evs, vaxis.Key{Keycode: c, Modifiers: mm})                                                    // kitty, no alternates
+			evs = append(evs, vaxis.Key{Keycode: c, Modifiers: mm})                                                     // kitty, no alternates
 			evs = append(evs, vaxis.Key{Keycode: c, ShiftedCode: up, Modifiers: mm | vaxis.ModShift, Text: string(up)}) // shifted
 			if m%16 == 0 {
 				evs = append(evs, vaxis.Key{Keycode: c, BaseLayoutCode: 'a', Modifiers: mm})
@@ -611,7 +626,7 @@ func main() {
 	n := r.Get("decodes") + r.Get("match_pairs") + r.Get("cross_chords")
 	r.Finish(explore.Coverage{
 		States: -1, Transitions: n, Traces: n, Evaluations: n,
-		Rule: "decoding, through bytes -> ansi.Parser -> input loop of a real Vaxis on a fake console: every ASCII byte and 24 non-ASCII scalars raw; ESC + every byte 0x30-0x7F that stays in the escape state; SS3 keys; CSI 1;m X for 11 finals x all 256 modifier masks, CSI n;m ~ for 30 numbers x 256 masks, each also with an event-type sub-parameter (press/repeat/release rotating); CSI 27;m;k ~; CSI u for 128 ASCII codes + 24 non-ASCII + every functional key of the kitty specification x 256 masks with the optional fields (shifted, base, event type, text) rotating so that every combination meets every mask; compared with an independent decoder. Matching: ~5000 decoded events x 138 binding keys x 256 masks: agreement with a transcription of the six documented matching rules for every (event, binding, mask), own-binding completeness, soundness on Ctrl/Alt/Super/Hyper/Meta, lock insensitivity, MatchString parsing. Cross-protocol: 95 chords under both encodings: String() and match sets. distinct = inputs/events/chords that passed",
+		Rule:       "decoding, through bytes -> ansi.Parser -> input loop of a real Vaxis on a fake console: every ASCII byte and 24 non-ASCII scalars raw; ESC + every byte 0x30-0x7F that stays in the escape state; SS3 keys; CSI 1;m X for 11 finals x all 256 modifier masks, CSI n;m ~ for 30 numbers x 256 masks, each also with an event-type sub-parameter (press/repeat/release rotating); CSI 27;m;k ~; CSI u for 128 ASCII codes + 24 non-ASCII + every functional key of the kitty specification x 256 masks with the optional fields (shifted, base, event type, text) rotating so that every combination meets every mask; compared with an independent decoder. Matching: ~5000 decoded events x 138 binding keys x 256 masks: agreement with a transcription of the six documented matching rules for every (event, binding, mask), own-binding completeness, soundness on Ctrl/Alt/Super/Hyper/Meta, lock insensitivity, MatchString parsing. Cross-protocol: 95 chords under both encodings: String() and match sets. distinct = inputs/events/chords that passed",
 		Exhaustive: true,
 		Assumptions: []string{"0x08/0x09/0x0D/0x1B decode to Backspace/Tab/Enter/Escape (the usual reading of the ambiguous legacy bytes)",
 			"ESC + upper-case letter may be reported with either normalisation (Alt+Shift vs Alt+CapsLock cannot be told apart)",
